@@ -80,7 +80,7 @@ def replyJ : Reply → J
   | .flowRemoved f r => J.mk [("t", J.str "flow_removed"), ("prio", J.ofNat f.priority), ("cookie", J.ofNat f.cookie), ("reason", J.ofNat r)]
 
 def errName : Err → String
-  | .key => "KeyError" | .name => "NameError" | .attr => "AttributeError" | .runtime => "RuntimeError" | .unmodelled => "unmodelled"
+  | .key => "KeyError" | .name => "NameError" | .attr => "AttributeError" | .runtime => "RuntimeError" | .struct => "error" | .unmodelled => "unmodelled"
 
 def groupJ : Except Err (List Reply) → J
   | .ok o => J.mk [("out", J.arr (o.map replyJ))]
